@@ -146,6 +146,38 @@ def gen_state(rng, big=False, now=1700000000):
         if cand and rng.random() < 0.6:
             pick = rng.sample(cand, min(len(cand), rng.choice([1, 2, 5])))
             d['deleted'] = sorted(d['deleted'] + [(p, rbytes(rng, hs)) for p in pick])
+    # a run of DELETED blocks with holes strictly inside: consecutive positions free on one disk, both ends used by another
+    # disk, at least one inner position used by nobody (the save drops it out of the middle of the deleted extent)
+    if nd >= 2 and bm >= 3 and rng.random() < 0.6:
+        for _ in range(12):
+            di = rng.randrange(nd)
+            n = rng.choice([3, 3, 4, 5, 6])
+            if n > bm:
+                continue
+            r = rng.randrange(0, bm - n + 1)
+            win = list(range(r, r + n))
+            taken = useds[di] | {p for p, _ in disks[di]['deleted']}
+            if any(p in taken for p in win):
+                continue
+            allused = set().union(*useds)
+            if all(p in allused for p in win[1:-1]):
+                continue
+            dj = rng.choice([x for x in range(nd) if x != di])
+            ok = True
+            for e in (win[0], win[-1]):
+                if e not in allused:
+                    if e in useds[dj] or any(p == e for p, _ in disks[dj]['deleted']):
+                        ok = False
+                        break
+            if not ok:
+                continue
+            for e in (win[0], win[-1]):
+                if e not in allused:
+                    disks[dj]['files'].append(dict(size=rng.randrange(1, bs + 1), msec=v64(rng), mnsec=rng.choice([NSEC_INVALID, 0, 7]), inode=v64(rng),
+                                                   sub=rname(rng), blocks=[dict(state=rng.choice([BLK, CHG, REP]), pos=e, hash=rbytes(rng, hs))]))
+                    useds[dj].add(e)
+            disks[di]['deleted'] = sorted(disks[di]['deleted'] + [(p, rbytes(rng, hs)) for p in win])
+            break
     # maps: every disk, in a random order, distinct positions
     order = list(range(nd))
     rng.shuffle(order)
